@@ -259,6 +259,7 @@ class FakeSnowflakeCursor:
         result_sql = None
 
         create_is_noop = False
+        columns_before: set[str] = set()
 
         try:
             # CREATE TABLE IF NOT EXISTS on a table that already exists changes nothing, including its recorded metadata
@@ -275,6 +276,24 @@ class FakeSnowflakeCursor:
                         (catalog, schema, table.name),
                     ).fetchall()
                 )
+
+            # ALTER TABLE .. ADD COLUMN IF NOT EXISTS leaves a column that is already there (and its recorded length) alone
+            if (
+                isinstance(transformed, exp.Alter)
+                and transformed.args.get("text_lengths")
+                and any(isinstance(a, exp.ColumnDef) and a.args.get("exists") for a in transformed.args.get("actions") or [])
+                and (table := transformed.find(exp.Table))
+                and (catalog := table.catalog or self._conn.database)
+                and (schema := table.db or self._conn.schema)
+            ):
+                columns_before = {
+                    row[0]
+                    for row in self._duck_conn.execute(
+                        "SELECT column_name FROM duckdb_columns() "
+                        "WHERE database_name = ? AND schema_name = ? AND table_name = ?",
+                        (catalog, schema, table.name),
+                    ).fetchall()
+                }
 
             if transformed.find(exp.Select) and (seed := transformed.args.get("seed")):
                 # set the seed with its own statement, so the query itself is what gets described later
@@ -414,7 +433,8 @@ class FakeSnowflakeCursor:
             catalog = table.catalog or self._conn.database
             schema = table.db or self._conn.schema
             assert catalog and schema
-            self._duck_conn.execute(info_schema.insert_text_lengths_sql(catalog, schema, table.name, text_lengths))
+            if text_lengths := [(column, length) for column, length in text_lengths if column not in columns_before]:
+                self._duck_conn.execute(info_schema.insert_text_lengths_sql(catalog, schema, table.name, text_lengths))
 
         if result_sql:
             self._log_sql(result_sql, params)
